@@ -27,8 +27,15 @@ pub fn prop() -> Prop {
     }
 }
 
+thread_local! {
+    /// Under the shadow heap a freed address is never used again; the directed families and the nesting
+    /// templates of depth 2 run a second time WITHOUT it, so that whatever the implementation remembers by
+    /// address meets real reuse.
+    static LEDGER: std::cell::Cell<bool> = std::cell::Cell::new(true);
+}
+
 pub fn opts() -> RunOpts {
-    RunOpts { budget: Some(crate::outcome::QUICK_BUDGET), ledger: true, trace: true, render: true }
+    RunOpts { budget: Some(crate::outcome::QUICK_BUDGET), ledger: LEDGER.with(|c| c.get()), trace: true, render: true }
 }
 
 pub fn opcode_names() -> Vec<String> {
@@ -36,6 +43,31 @@ pub fn opcode_names() -> Vec<String> {
 }
 
 fn run(sh: &mut Shard) {
+    // second pass (without the shadow heap) first: directed families and the depth-2 nesting templates
+    LEDGER.with(|c| c.set(false));
+    for prog in slices::evaluation_order_programs()
+        .into_iter()
+        .chain(slices::literal_pristine_programs())
+        .chain(slices::block_function_programs())
+        .chain(slices::nested_function_programs())
+    {
+        if !sh.mine() {
+            continue;
+        }
+        sh.begin(&|| printer::program(&prog));
+        sh.count("slice:second-pass-without-shadow-heap");
+        differential(sh, "semantics", &prog, opts());
+    }
+    crate::compose::for_each(2, &mut |_, prog| {
+        if sh.mine() {
+            sh.begin(&|| printer::program(prog));
+            sh.count("slice:second-pass-without-shadow-heap");
+            differential(sh, "semantics", prog, opts());
+            let _ = verif::trace_take();
+        }
+        sh.running()
+    });
+    LEDGER.with(|c| c.set(true));
     let tier = sh.cfg.tier;
     // a literal evaluated again is pristine, whatever its earlier value went through
     for prog in crate::slices::literal_pristine_programs() {
